@@ -92,12 +92,13 @@ type Sched struct {
 	cfg Config
 	mu  sync.Mutex
 
-	byGoid map[int64]*G
-	tokens map[uint64]*G
-	all    []*G
-	owner  map[unsafe.Pointer]*G
-	tokCtr uint64
-	anon   int
+	byGoid  map[int64]*G
+	tokens  map[uint64]*G
+	all     []*G
+	owner   map[unsafe.Pointer]*G
+	tokCtr  uint64
+	anon    int
+	adopted map[string]int
 
 	wakeCh   chan struct{}
 	draining atomic.Bool
@@ -139,12 +140,19 @@ func (s *Sched) cur() *G {
 	return g
 }
 
-// Adopt names the calling goroutine (for goroutines created by uninstrumented code).
+// Adopt names the calling goroutine (for goroutines created by uninstrumented code). A name
+// that was used before (an HTTP connection goroutine serving its next request) gets a
+// numbered successor, so logical ids - and the ids of the goroutines it spawns - stay unique.
 func (s *Sched) Adopt(name string) {
 	id := shim.Goid()
 	s.mu.Lock()
+	s.adopted[name]++
+	if n := s.adopted[name]; n > 1 {
+		name = fmt.Sprintf("%s#%d", name, n)
+	}
 	if g := s.byGoid[id]; g != nil {
 		g.ID = name
+		g.nspawn = 0
 	} else {
 		g = &G{ID: name, goid: id, wake: make(chan int, 1), seq: len(s.all)}
 		s.byGoid[id] = g
@@ -767,7 +775,7 @@ func RunOnce(t *testing.T, cfg Config, prefix []int, prefixFP []uint64, body fun
 	}()
 	synctest.Test(t, func(t *testing.T) {
 		s := &Sched{
-			cfg: cfg, byGoid: map[int64]*G{}, tokens: map[uint64]*G{}, owner: map[unsafe.Pointer]*G{},
+			cfg: cfg, byGoid: map[int64]*G{}, tokens: map[uint64]*G{}, owner: map[unsafe.Pointer]*G{}, adopted: map[string]int{},
 			wakeCh: make(chan struct{}, 1), prefix: prefix, prefixFP: prefixFP, x: x, stuck: make(chan struct{}),
 		}
 		s.clk = calibrate()
